@@ -1,6 +1,9 @@
 package tlsk
 
 import (
+	"fmt"
+
+	"github.com/tjfoc/gmsm/gmtls"
 	"verif/mc/ref/gmref"
 	"verif/mc/wire"
 )
@@ -42,4 +45,76 @@ func RefEnd(client bool, id gmref.Identity, seed byte, setup func(p *gmref.Peer)
 		e.Close()
 		return rv.Res.Err
 	}
+}
+
+// RefOutcome is the result of a session between a library endpoint and a scripted reference peer.
+type RefOutcome struct {
+	Lib     View
+	Ref     RefView
+	Horizon bool
+	Stuck   []string // endpoints that never finished although their input ended
+	LibStuck bool
+	Records []wire.Record
+}
+
+// PingPong is the default data phase of a reference peer: the client writes "ping" and expects
+// "pong", then both close.
+func PingPong(client bool) func(q *gmref.Peer) error {
+	return func(q *gmref.Peer) error {
+		if client {
+			if err := q.WriteRecord(gmref.RecApp, []byte("ping")); err != nil {
+				return err
+			}
+			if err := q.ReadApp(4); err != nil {
+				return err
+			}
+			return q.CloseNotify()
+		}
+		if err := q.ReadApp(4); err != nil {
+			return err
+		}
+		if err := q.WriteRecord(gmref.RecApp, []byte("pong")); err != nil {
+			return err
+		}
+		return q.CloseNotify()
+	}
+}
+
+// LibApp is the library side of PingPong.
+func LibApp(client bool) App {
+	if client {
+		return App{Writes: [][]byte{[]byte("ping")}, Expect: 4}
+	}
+	return App{Writes: [][]byte{[]byte("pong")}, Expect: 4}
+}
+
+// RunLibVsRef runs one session: the library endpoint (client or server) against a reference peer
+// in the other role.
+func RunLibVsRef(libCfg *gmtls.Config, libIsClient bool, app App, id gmref.Identity, seed byte, setup func(p *gmref.Peer), script *gmref.Script, pol wire.Policy) *RefOutcome {
+	ro := &RefOutcome{}
+	var lv, dummy View
+	lib := GMEnd(libCfg, libIsClient, app, &lv, nil)
+	ref := RefEnd(!libIsClient, id, seed, setup, script, &ro.Ref)
+	var o *Outcome
+	if libIsClient {
+		o = Run(lib, ref, &lv, &dummy, pol)
+		ro.Lib = o.C
+		ro.LibStuck = !o.ClientEnd.Done
+	} else {
+		o = Run(ref, lib, &dummy, &lv, pol)
+		ro.Lib = o.S
+		ro.LibStuck = !o.ServerEnd.Done
+	}
+	ro.Horizon, ro.Stuck, ro.Records = o.Horizon, o.Stuck, o.Records
+	return ro
+}
+
+// Describe summarises a RefOutcome.
+func (o *RefOutcome) Describe() string {
+	v := o.Lib
+	ref := "ref{not started}"
+	if o.Ref.Peer != nil {
+		ref = fmt.Sprintf("ref{completed=%v stage=%q err=%v sent=%v seen=%v checks=%v panic=%v}", o.Ref.Res.Completed, o.Ref.Res.Stage, o.Ref.Res.Err, o.Ref.Peer.Sent, o.Ref.Peer.Seen, o.Ref.Peer.Checks, o.Ref.Panic)
+	}
+	return fmt.Sprintf("library{complete=%v hsErr=%v read=%q readErr=%v panic=%v} %s stuck=%v horizon=%v", v.Complete, v.HandshakeErr, v.Read, v.ReadErr, v.Panic, ref, o.Stuck, o.Horizon)
 }
